@@ -159,7 +159,16 @@ let sbx side f =
       let cat l = List.concat (List.map (fun p -> p.p_bytes) l) in
       Printf.sprintf "%s %s %s 1 %s" (hexo (cat a)) (hexo (cat b)) (hexo (cat b)) (hexo (cat p2))
 
+let sbxcat side f =
+  let d1 = unhex (List.nth f 0) and d2 = unhex (List.nth f 1) in
+  match side with
+  | `Spec -> hexo (spec_strip (nlist (d1 @ d2)))
+  | `Model ->
+      let (pss, _), _ = unopt (strip_bytes_chunks [ nlist d1; nlist d2 ] Ground u8_new) in
+      hexo (List.concat (List.map (fun p -> p.p_bytes) (List.concat pss)))
+
 let () =
+  register "sbxcat" sbxcat;
   register "c02big" (fun _ _ -> "N/A");
   register "ssd" ssd;
   register "ssdcat" ssdcat;
